@@ -173,7 +173,58 @@ func (c *c20) isolation(tape *kernel.Tape, n int) {
 	steps(c.o, tape, n, func(i int, ch *kernel.Chooser) string {
 		c.step = i
 		var desc string
-		switch ch.Int(14) {
+		switch ch.Int(15) {
+		case 14: // idempotent requests served concurrently answer exactly what they answer alone
+			tok := "no-token"
+			if sess != nil && sess.tokens != nil {
+				tok = sess.tokens.AccessToken
+			}
+			creds := w.RightCreds("web")
+			mk := func(kind string) func(ctx context.Context) *world.Resp {
+				switch kind {
+				case "discovery":
+					return func(ctx context.Context) *world.Resp {
+						req, _ := http.NewRequestWithContext(ctx, "GET", w.Issuer+"/.well-known/openid-configuration", nil)
+						return w.DoRaw(req)
+					}
+				case "keys":
+					return func(ctx context.Context) *world.Resp {
+						req, _ := http.NewRequestWithContext(ctx, "GET", w.Issuer+"/keys", nil)
+						return w.DoRaw(req)
+					}
+				case "userinfo":
+					return func(ctx context.Context) *world.Resp {
+						req, _ := http.NewRequestWithContext(ctx, "GET", w.Issuer+"/userinfo", nil)
+						req.Header.Set("Authorization", "Bearer "+tok)
+						return w.DoRaw(req)
+					}
+				default:
+					return func(ctx context.Context) *world.Resp {
+						return w.PostFormCtx(ctx, "/oauth/introspect", url.Values{"token": {tok}}, creds)
+					}
+				}
+			}
+			var gops []*groupOp
+			var want []string
+			nops := 2 + ch.Int(3)
+			for k := 0; k < nops; k++ {
+				kind := ch.Pick("discovery", "keys", "userinfo", "introspect", "discovery", "keys")
+				do := mk(kind)
+				ref := do(context.Background())
+				want = append(want, fmt.Sprintf("%d %s", ref.Status, ref.Body))
+				gops = append(gops, &groupOp{label: kind, do: do})
+			}
+			trace := runGroup(w, c.o, fmt.Sprintf("reads:%d", i), gops, 0)
+			c.o.Probe("scheduled-concurrent-reads")
+			for k, g := range gops {
+				if g.resp == nil || g.resp.Err != nil {
+					continue
+				}
+				if got := fmt.Sprintf("%d %s", g.resp.Status, g.resp.Body); got != want[k] {
+					c.viol("instance-not-isolated", "op.Provider/concurrent-reads/"+g.label, "a %s request served concurrently with %d other read-only requests (schedule %v) was answered differently than alone:\n  alone:      %s\n  concurrent: %s", g.label, nops-1, trace, firstLine(want[k]), firstLine(got))
+				}
+			}
+			desc = fmt.Sprintf("%d concurrent read-only requests %v", nops, trace)
 		case 13: // the storage is down and answers with its one reused *oidc.Error value: the error redirect must not write into it
 			fired := false
 			w.Store.Inject = func(n int, method string, rid int) string {
